@@ -1202,7 +1202,9 @@ fn builtin_rand(args: Vec<Rc<Object>>) -> Result<Rc<Object>, String> {
                     "argument should be a finite, non-negative number",
                 ));
             }
-            let r = rng.gen_range(0.0..=*n) as f64;
+            // scale a unit sample: a range up to f64::MAX overflows inside
+            // the uniform distribution
+            let r = rng.gen_range(0.0..=1.0) * *n;
             Ok(Rc::new(Object::Float(r)))
         }
         _ => Err(String::from("unsupported argument")),
